@@ -6,8 +6,8 @@ From Coq Require Import String.
 From Coq Require Import List Ascii ZArith Bool.
 From Coq Require Import Floats.PrimFloat Numbers.Cyclic.Int63.Uint63.
 From CGV Require Import Base.PyBase Base.PyVal Base.PyGen Base.NxGraph Sample.GenSupport Gen.SamplerGen Gen.HydroGen
-     Sample.SampleImpl Sample.SampleDefs Sample.SampleFinal.
-From CGV Require Resolve.GraphOps.
+     Sample.SampleImpl Sample.SampleDefs Sample.SampleFinal Sample.SampleMassDefs.
+From CGV Require Resolve.GraphOps Hydro.Hydrogens.
 Import ListNotations.
 Open Scope Z_scope.
 
@@ -50,6 +50,10 @@ Record case := {
   k_obs : list (list (pystr * list Z));    (* open_bonds handed to each add_fragment call *)
   k_added : list pystr;                    (* fragment names add_fragment returned *)
   k_det : list bool;                       (* C17 histories: repeated runs gave identical molecules *)
+  k_completed : list (list pystr);         (* PTE masses: per fragment (dict order) the elements of the completed copy inside
+                                              compute_mass, in node order, as recorded in the constructor *)
+  k_hist : list bool;                      (* C17 histories on the shared generator (construct A; construct B; sample A / sample
+                                              after a failed sample): the implementation did what the history machine says *)
   k_exact : list bool;                     (* stop rule judged by the harness in exact rational arithmetic on the
                                               recorded binary64 masses: [sum >= target; sum without the last < target] *)
   k_out : outcome }.
@@ -452,6 +456,29 @@ Definition model_init (c : case) : res fconfig :=
   ms <- model_masses c ;;
   Ok {| c_frags := c_frags cfg; c_poly := c_poly cfg; c_fragreact := c_fragreact cfg; c_term := c_term cfg;
         c_masses := ms; c_byb := c_byb cfg |}.
+(** element-derived masses DERIVED from the hydrogen component's model (Sample/SampleTemplateNx.v,
+    [mass_is_hydro_mass]): the fragment satisfies the theorem's hypothesis [mass_wfb]; Hydro's rebuild model run on
+    the fragment graph yields the element sequence the implementation's completed copy had (node order), and the
+    mass loop over it gives the implementation's fragment mass bit for bit *)
+Definition hydro_masses_ok (c : case) (ms : list (pystr * float)) : bool :=
+  match k_user_masses c with
+  | Some (_ :: _) => true
+  | _ =>
+      if negb (k_aa c) then true else
+      Nat.eqb (length (k_completed c)) (length (k_frags c)) &&
+      forallb (fun fe =>
+                 let t := snd (fst fe) in
+                 mass_wfb t &&
+                 match Hydrogens.rebuild_after_car false rebuild_copy_attrs_default (template_nx t) with
+                 | Ok g' => list_eqb opt_pyval_eqb (map elt g') (map (fun e => Some (VStr e)) (snd fe)) &&
+                            match nx_mass float fc0 fadd pte_mass_float g', dict_get ms (fst (fst fe)) with
+                            | Ok x, Some y => feq x y
+                            | _, _ => false
+                            end
+                 | Err _ => false
+                 end) (combine (k_frags c) (k_completed c))
+  end.
+
 Definition init_eqb (cfg : fconfig) (t : tables) : bool :=
   let '(p, f, tm, ms, byb) := t in
   fdict_eqb (c_poly cfg) p &&
@@ -473,6 +500,8 @@ Definition corr_ok (c : case) : bool :=
   | Err e, None => match k_out c with OExc cls O => str_eqb (err_class e) cls | _ => false end
   | Ok cfg, Some t =>
       init_eqb cfg t &&
+      hydro_masses_ok c (c_masses cfg) &&
+      forallb (fun b => b) (k_hist c) &&
       (* hypothesis of the unconditional numbering / valence theorems (Sample/SampleSorted.v) *)
       frags_attrs_okb (k_frags c) &&
       let picks := all_picks c in
